@@ -2,7 +2,9 @@
  * integration-loop / web-server protocol that RV/Model/Conc.lean models, and injects random
  * delays at those program points.  No source hooks: everything is symbol interposition.
  *
- *   pthread_mutex_lock/unlock   on the registered mutex (server_data->mutex) only
+ *   r->server_data              polled at every log append: the first time it is seen non-NULL an `xStart`
+ *                               event is logged (the store happened after the previous logged event)
+ *   pthread_mutex_lock/unlock   on the mutex of the CURRENT r->server_data only (re-read at every call)
  *   usleep(10)                  the need_copy wait loop of rebound.c:845-847
  *   reb_check_exit, reb_simulation_synchronize, reb_simulation_step,
  *   reb_simulation_save_to_stream
@@ -15,7 +17,7 @@
  * the order of mutex events in the log is the order in which they took effect.  A spin
  * (usleep(10)) is only logged if need_copy still reads 1 under the log lock (see notes/C19.md).
  *
- * API for the driver process (ctypes): c19_register, c19_set_integrator, c19_mark,
+ * API for the driver process (ctypes): c19_register(&r->server_data, offsetof mutex, offsetof need_copy), c19_set_integrator, c19_mark,
  * c19_delays, c19_dump, c19_reset, c19_counts.
  */
 #define _GNU_SOURCE
@@ -30,9 +32,9 @@
 #include <sys/syscall.h>
 
 enum { E_iEnter, E_iChkBegin, E_iChkSync, E_iChkEnd1, E_iChkEnd0, E_iSpin, E_iLock, E_iStepBegin,
-       E_iStepEnd, E_iUnlock, E_iEpiSync, E_iLeave, E_sLock, E_sSerBegin, E_sSerEnd, E_sUnlock, E_N };
+       E_iStepEnd, E_iUnlock, E_iEpiSync, E_iLeave, E_sLock, E_sSerBegin, E_sSerEnd, E_sUnlock, E_xStart, E_N };
 static const char* NAMES[E_N] = {"iEnter", "iChkBegin", "iChkSync", "iChkEnd1", "iChkEnd0", "iSpin", "iLock",
-    "iStepBegin", "iStepEnd", "iUnlock", "iEpiSync", "iLeave", "sLock", "sSerBegin", "sSerEnd", "sUnlock"};
+    "iStepBegin", "iStepEnd", "iUnlock", "iEpiSync", "iLeave", "sLock", "sSerBegin", "sSerEnd", "sUnlock", "xStart"};
 
 struct rec { unsigned char code; signed char nc; };
 
@@ -45,8 +47,9 @@ static void (*real_step)(void*);
 static void (*real_save)(void*, char**, size_t*);
 static void* lib_handle;
 
-static void* volatile g_mutex;          /* &server_data->mutex */
-static volatile int* volatile g_nc;     /* &server_data->need_copy */
+static char* volatile* volatile g_sdp;  /* &r->server_data */
+static long g_off_mutex, g_off_nc;
+static volatile int g_up;               /* r->server_data has been seen non-NULL */
 static volatile long g_itid;            /* integrator thread */
 static volatile int g_active;
 static volatile int g_loglock;
@@ -59,7 +62,7 @@ static volatile long g_foreign_ser;     /* save_to_stream on the integrator thre
 static unsigned g_prob = 0, g_maxus = 0; /* delay injection: probability per 1000, max microseconds */
 static uint64_t g_seed = 1;
 
-static __thread int t_in_chk, t_in_step, t_in_int;
+static __thread int t_in_chk, t_in_step, t_in_int, t_pro;
 static __thread uint64_t t_rng;
 
 static long mytid(void) { return syscall(SYS_gettid); }
@@ -90,7 +93,16 @@ static void resolve_lib(void) {
 static void loglock(void) { while (__atomic_exchange_n(&g_loglock, 1, __ATOMIC_ACQUIRE)) { } }
 static void logunlock(void) { __atomic_store_n(&g_loglock, 0, __ATOMIC_RELEASE); }
 
+static char* cur_sd(void) { return g_sdp ? *g_sdp : NULL; }
+static int is_srv_mutex(void* m) { char* sd = cur_sd(); return sd && (char*)m == sd + g_off_mutex; }
+static int nc_now(void) { char* sd = cur_sd(); return sd ? *(volatile int*)(sd + g_off_nc) : 0; }
+
+static void append_raw(int code, int nc);
 static void append_locked(int code, int nc) {
+    if (!g_up && code != E_xStart && cur_sd()) { g_up = 1; append_raw(E_xStart, -1); }
+    append_raw(code, nc);
+}
+static void append_raw(int code, int nc) {
     if (g_n == g_cap) {
         g_cap = g_cap ? 2 * g_cap : (1 << 16);
         g_log = realloc(g_log, g_cap * sizeof(struct rec));
@@ -116,21 +128,21 @@ static void delay(void) {
 /* ------------------------------------------------------------------ interposed: libc */
 int pthread_mutex_lock(pthread_mutex_t* m) {
     if (!real_lock) { resolve(); if (!real_lock) return 0; }
-    if (!g_active || (void*)m != g_mutex) return real_lock(m);
+    if (!g_active || !is_srv_mutex(m)) return real_lock(m);
     int isI = mytid() == g_itid;
     delay();
     int rc = real_lock(m);
-    append(isI ? E_iLock : E_sLock, isI ? -1 : *g_nc);
+    append(isI ? E_iLock : E_sLock, isI ? -1 : nc_now());
     delay();
     return rc;
 }
 
 int pthread_mutex_unlock(pthread_mutex_t* m) {
     if (!real_unlock) { resolve(); if (!real_unlock) return 0; }
-    if (!g_active || (void*)m != g_mutex) return real_unlock(m);
+    if (!g_active || !is_srv_mutex(m)) return real_unlock(m);
     int isI = mytid() == g_itid;
     delay();
-    append(isI ? E_iUnlock : E_sUnlock, isI ? -1 : *g_nc);
+    append(isI ? E_iUnlock : E_sUnlock, isI ? -1 : nc_now());
     int rc = real_unlock(m);
     delay();
     return rc;
@@ -138,9 +150,9 @@ int pthread_mutex_unlock(pthread_mutex_t* m) {
 
 int usleep(useconds_t us) {
     if (!real_usleep) resolve();
-    if (g_active && us == 10 && t_in_int && !t_in_chk && !t_in_step && mytid() == g_itid && g_nc) {
+    if (g_active && us == 10 && t_in_int && !t_in_chk && !t_in_step && mytid() == g_itid && cur_sd()) {
         loglock();
-        if (*g_nc == 1) append_locked(E_iSpin, 1); else g_late_spins++;
+        if (nc_now() == 1) append_locked(E_iSpin, 1); else g_late_spins++;
         logunlock();
         delay();
     }
@@ -153,7 +165,7 @@ int reb_check_exit(void* r, double tmax, double* last_full_dt) {
     int mine = g_active && t_in_int && mytid() == g_itid;
     if (!mine) return real_check_exit(r, tmax, last_full_dt);
     append(E_iChkBegin, -1);
-    t_in_chk = 1;
+    t_in_chk = 1; t_pro = 0;
     delay();
     int rc = real_check_exit(r, tmax, last_full_dt);
     delay();
@@ -164,7 +176,8 @@ int reb_check_exit(void* r, double tmax, double* last_full_dt) {
 
 void reb_simulation_synchronize(void* r) {
     resolve_lib();
-    int mine = g_active && t_in_int && !t_in_step && mytid() == g_itid;
+    /* t_pro: the prologue (rebound.c:805-808) may synchronise before reversing dt; it is one unlocked write in the model */
+    int mine = g_active && t_in_int && !t_in_step && !t_pro && mytid() == g_itid;
     if (!mine) { real_synchronize(r); return; }
     append(t_in_chk ? E_iChkSync : E_iEpiSync, -1);
     delay();
@@ -197,12 +210,13 @@ void reb_simulation_save_to_stream(void* r, char** bufp, size_t* sizep) {
 }
 
 /* ------------------------------------------------------------------ API */
-void c19_register(void* mutex, int* need_copy) { g_mutex = mutex; g_nc = need_copy; g_active = 1; }
+/* sdp = &r->server_data (may still hold NULL: the server can be started later) */
+void c19_register(void* sdp, long off_mutex, long off_nc) { g_off_mutex = off_mutex; g_off_nc = off_nc; g_sdp = (char* volatile*)sdp; g_up = 0; g_active = 1; }
 void c19_set_integrator(void) { g_itid = mytid(); }
 void c19_delays(uint64_t seed, unsigned prob_permille, unsigned max_us) { g_seed = seed ? seed : 1; g_prob = prob_permille; g_maxus = max_us; }
 /* code 0: integrate() is about to be called by this thread; code 1: it returned */
 void c19_mark(int code) {
-    if (code == 0) { t_in_int = 1; append(E_iEnter, -1); }
+    if (code == 0) { t_in_int = 1; t_pro = 1; append(E_iEnter, -1); }
     else { append(E_iLeave, -1); t_in_int = 0; }
 }
 void c19_stop(void) { g_active = 0; }
